@@ -139,7 +139,7 @@ func checkC17() fw.Check {
 		Gen: func(tier string, seed int64) []fw.Case {
 			nDocs, nRuns := 100, 6
 			if tier == "thorough" {
-				nDocs, nRuns = 5000, 30
+				nDocs, nRuns = 40000, 150
 			}
 			var cases []fw.Case
 			for i := 0; i < nDocs; i++ {
